@@ -35,7 +35,8 @@ FOCUS = {
                 "mesh_finder": 1.0, "mk_mapping": 1.0, "mapping_eval": 2.0},
     "dofs": {"mk_dofs": 3.0, "mk_basis": 6.0, "mesh_transform": 3.0,
              "mk_mapping": 2.0,
-             "basis_observe": 3.0, "basis_get_dofs": 2.0, "mesh_tag": 1.0,
+             "basis_observe": 3.0, "basis_get_dofs": 3.0, "mesh_tag": 1.0,
+             "dofs_view_ops": 4.0,
              "mk_vec": 1.0, "basis_interpolate": 1.0},
     "elements": {"mk_elem": 2.0, "mk_mesh": 2.0, "mk_basis": 5.0,
                  "elem_lbasis": 3.0, "basis_observe": 2.0, "basis_derive": 1.5,
